@@ -1,10 +1,10 @@
 SPECIFICATION Spec
 CONSTANTS
+  Emit = TRUE
   Lits = {"x", "X", "~x", "y", "Y", "zz", "Zz"}
   Values = {"1", "red", "1px"}
   MaxLen = 3
   MaxHist = 4
 CONSTRAINT Bounded
 VIEW View
-INVARIANT EmitHist
 INVARIANT EmitAlphabet
